@@ -186,6 +186,7 @@ pub fn execute(check: &str, plan: Plan, want_log: bool) -> RunResult {
     add("clock_jump", facts.clock_jumps);
     add("schedule_yield", yields);
     add("stall", stalls);
+    add("slow_handler_stall_seconds", hooks::long_stalls());
     add("push_endpoint_failure", facts.post_failures);
     add("nack", facts.nacks);
     add("delete_subscription", facts.deletes_sub);
